@@ -252,3 +252,8 @@ func (p *Prog) CallGraph() *callgraph.Graph {
 }
 
 func (p *Prog) CallGraphKind() string { p.CallGraph(); return p.cgKind }
+
+// InRepoPkg reports whether an SSA package belongs to the repository under analysis.
+func InRepoPkg(p *ssa.Package) bool {
+	return p != nil && p.Pkg != nil && strings.HasPrefix(p.Pkg.Path(), Module)
+}
